@@ -330,10 +330,13 @@ func TestCQRSDispatch(t *testing.T) {
 		busPub := lib.NewScriptPub("")
 		var send func(v any) error
 		topicPrefix := "bus."
+		// the configured generator may look at more than the name (the value: per-tenant topics; other state): the
+		// harness changes this variant between sends and every value must go where the generator says NOW
+		topicVariant := ""
 		if kind == "command" {
 			bus, err := cqrs.NewCommandBusWithConfig(busPub, cqrs.CommandBusConfig{
 				GeneratePublishTopic: func(p cqrs.CommandBusGeneratePublishTopicParams) (string, error) {
-					return topicPrefix + p.CommandName, nil
+					return topicPrefix + p.CommandName + topicVariant, nil
 				},
 				Marshaler: marshaler,
 			})
@@ -344,7 +347,7 @@ func TestCQRSDispatch(t *testing.T) {
 		} else {
 			bus, err := cqrs.NewEventBusWithConfig(busPub, cqrs.EventBusConfig{
 				GeneratePublishTopic: func(p cqrs.GenerateEventPublishTopicParams) (string, error) {
-					return topicPrefix + p.EventName, nil
+					return topicPrefix + p.EventName + topicVariant, nil
 				},
 				Marshaler: marshaler,
 			})
@@ -390,6 +393,7 @@ func TestCQRSDispatch(t *testing.T) {
 			switch it.Kind {
 			case 0, 1, 2:
 				v = ti.gen(t)
+				topicVariant = rapid.SampledFrom([]string{"", "", ".tenant-a", ".tenant-b"}).Draw(t, "publishTopicVariant")
 				before := len(busPub.Calls())
 				if err := send(v); err != nil {
 					t.Fatalf("violation: bus refused %T %v: %v", v, v, err)
@@ -399,8 +403,8 @@ func TestCQRSDispatch(t *testing.T) {
 					t.Fatalf("violation: bus made %d Publish calls for one value", len(pcs))
 				}
 				msgName = marshaler.Name(v)
-				if pcs[0].Topic != topicPrefix+msgName {
-					t.Fatalf("violation: bus published on %q, configured topic is %q", pcs[0].Topic, topicPrefix+msgName)
+				if pcs[0].Topic != topicPrefix+msgName+topicVariant {
+					t.Fatalf("violation: bus published on %q, the configured generator says %q for this value", pcs[0].Topic, topicPrefix+msgName+topicVariant)
 				}
 				pm := pcs[0].Msgs[0]
 				if got := marshaler.NameFromMessage(pm); got != msgName {
